@@ -310,6 +310,16 @@ def run_fill(job, acc):
             st = w.send(c.name, {"type": "allocate"})
             longs += [f.get("nameplate") for _, f in st.frames if f.get("type") == "allocated"]
         acc.extra["c04_long_allocations"] += len(longs)
+        # the two extreme outcomes of the draw from the long range (whatever function the tree draws with)
+        for ext in ("hi", "lo", "hi"):
+            w.krandom.range_force = ext
+            c = w.connect()
+            w.send(c.name, {"type": "bind", "appid": "app", "side": "sA"})
+            st = w.send(c.name, {"type": "allocate"})
+            got = [f.get("nameplate") for _, f in st.frames if f.get("type") == "allocated"]
+            acc.extra["c04_extreme_draws"] += 1
+            longs += got
+        w.krandom.range_force = None
         # another app is unaffected: still gets a one-digit name
         watch.app, watch.side = "app2", "sA"
         c = w.connect()
